@@ -19,7 +19,7 @@ RULE = ("matrices (hostile + well-conditioned) x positive c1, c2 with entries in
 ASSUMPTIONS = ["scale = a s1 |w1|_1 + b s2 |w2|_1 + s3 |w3|_1 with |w|_1 read by a forward hook on the weighting (>= 1)",
                "UPGrad raising at reg_eps below the numerical rank resolution of a rank-deficient Gramian is not judged here (C11 / C03 domain)"]
 LINEAR = ["Mean", "Sum", "Constant", "ConFIG", "PCGrad", "Random"]
-N = {"quick": (6000, 900), "thorough": (360000, 54000)}
+N = {"quick": (6000, 900), "thorough": (720000, 108000)}
 LADDER = [1e-2, 1e-4, 1e-6, 1e-8, 1e-10, 1e-12]
 # The property leaves the constant open.  The defect is governed by reg_eps relative to (smallest row scale / s)^2: with row scalings
 # over 6 decades that ratio reaches 1e-12, so the defect only starts to vanish at the last rungs.  Worst ratio observed over 27 000
